@@ -78,6 +78,22 @@ pub fn entries() -> Vec<Entry> {
             let b: DryocBox<SB<32>, SB<16>, Vec<u8>> = DryocBox::seal(b"abc", &pk).unwrap();
             b.to_vec()[..32].to_vec()
         }),
+        ("DryocBox::seal(empty message; ephemeral pk)", || {
+            let pk: SB<32> = sodium::scalarmult_base(&[7u8; 32]).into();
+            let b: DryocBox<SB<32>, SB<16>, Vec<u8>> = DryocBox::seal(b"", &pk).unwrap();
+            b.to_vec()[..32].to_vec()
+        }),
+        ("DryocBox::seal(1-byte message; ephemeral pk)", || {
+            let pk: SB<32> = sodium::scalarmult_base(&[7u8; 32]).into();
+            let b: DryocBox<SB<32>, SB<16>, Vec<u8>> = DryocBox::seal(b"x", &pk).unwrap();
+            b.to_vec()[..32].to_vec()
+        }),
+        ("crypto_box_seal(empty message; ephemeral pk)", || {
+            let pk = sodium::scalarmult_base(&[7u8; 32]);
+            let mut c = vec![0xC3u8; 48];
+            crypto_box::crypto_box_seal(&mut c, b"", &pk).unwrap();
+            c[..32].to_vec()
+        }),
         ("DryocBox::seal_to_vecbox(ephemeral pk)", || {
             let pk: SB<32> = sodium::scalarmult_base(&[7u8; 32]).into();
             DryocBox::seal_to_vecbox(b"abc", &pk).unwrap().to_vec()[..32].to_vec()
@@ -372,7 +388,7 @@ pub fn run() -> i32 {
     let seed = ctx.seed;
     let n = ctx.tier.pick(64usize, 512);
     let es = entries();
-    ctx.rule = format!("bounded exhaustive call histories over the inventory of {} randomised entry points: every entry point alone x {} calls; every ordered pair (a,b) interleaved a,b,a,b,a,b; every triple through the hub copy_randombytes; a size sweep of randombytes_buf(n) and copy_randombytes(n) for every n up to 1100 (4200 thorough) x 64 calls; every entry point on 4 concurrent fresh threads (values must not repeat across threads); each history under (i) an owned deterministic RNG (seam H3: distinct, never-zero stream per request) and (ii) the production OsRng; oracle on the returned values only: within a history no value of an entry point repeats, none is all-zero, no byte position is constant across >= 64 calls, and (owned-rng histories) no returned value contains the same 8 bytes twice at non-overlapping offsets (fields of one value must come from disjoint draws; coincidence probability < 2^-40 per run, and the verdict is a fixed function of the seed); non-trivial = history executed; the source tree is scanned for randomness call sites not covered by the inventory (reported, not alarmed)", es.len(), n);
+    ctx.rule = format!("bounded exhaustive call histories over the inventory of {} randomised entry points: every entry point alone x {} calls; every ordered pair (a,b) interleaved a,b,a,b,a,b; every triple through the hub copy_randombytes; a size sweep of randombytes_buf(n) and copy_randombytes(n) for every n up to 1100 (4200 thorough) x 64 calls; every entry point on 4 concurrent fresh threads (values must not repeat across threads); each history under (i) an owned deterministic RNG (seam H3: distinct, never-zero stream per request) and (ii) the production OsRng; oracle on the returned values, plus (owned RNG) every call requests at least min(len(output), 32) bytes from the generator: within a history no value of an entry point repeats, none is all-zero, no byte position is constant across >= 64 calls, and (owned-rng histories) no returned value contains the same 8 bytes twice at non-overlapping offsets (fields of one value must come from disjoint draws; coincidence probability < 2^-40 per run, and the verdict is a fixed function of the seed); non-trivial = history executed; the source tree is scanned for randomness call sites not covered by the inventory (reported, not alarmed)", es.len(), n);
     ctx.assume("statistical quality of the OS generator is not examined; under OsRng distinctness is asserted only for values >= 16 bytes (false-alarm probability < 2^-100)");
 
     let unmapped = scan_sites();
@@ -444,6 +460,41 @@ pub fn run() -> i32 {
     });
     ctx.note("histories", json!({"singles": es.len(), "ordered_pairs": es.len() * (es.len() - 1), "total": hist.len(), "environments": 2}));
     ctx.absorb("histories", st);
+    // randomness actually drawn: under the owned RNG every call must request at least
+    // min(len(output), 32) bytes from the generator while it runs (an entry point that expands a
+    // few drawn bytes into a full-looking key passes every distinctness test on its outputs)
+    {
+        let mut st = Stats::new();
+        for (i, e) in es.iter().enumerate() {
+            let drawn = Rc::new(Cell::new(0u64));
+            let d2 = drawn.clone();
+            let mut n = 0u64;
+            dryoc::rng::verif::set_source(Some(Box::new(move |d: &mut [u8]| {
+                n += 1;
+                d2.set(d2.get() + d.len() as u64);
+                let b = prand(seed ^ 0xd4a3, "c11-drawn", n, d.len().max(1));
+                d.copy_from_slice(&b[..d.len()]);
+            })));
+            let mut worst: Option<(u64, usize)> = None;
+            let r = guarded(AssertUnwindSafe(|| {
+                for _ in 0..3 {
+                    let before = drawn.get();
+                    let out = (e.1)();
+                    let got = drawn.get() - before;
+                    if got < out.len().min(32) as u64 && worst.is_none() {
+                        worst = Some((got, out.len()));
+                    }
+                }
+            }));
+            dryoc::rng::verif::set_source(None);
+            let bad = r.is_err() || worst.is_some();
+            st.eval(&("drawn", i), true, if bad { "draws-too-little" } else { "draws-enough" });
+            if let Some((got, len)) = worst {
+                st.fail(Fail { check: "C11.rng".into(), signature: format!("C11/draws-too-little/{}", e.0), what: format!("{}: one call requested {} random byte(s) from the generator for a {}-byte random output", e.0, got, len), case: json!({"order": [e.0], "seam": seed}) });
+            }
+        }
+        ctx.absorb("randomness-drawn", st);
+    }
     // several threads: the k-th value drawn on one thread must not reappear on another (a
     // generator whose state is partly global and partly per-thread repeats across threads while
     // every single thread looks healthy). 4 fresh threads x every entry point x 24 calls, OS RNG.
